@@ -257,6 +257,15 @@ def dispatch (fields : List String) : Result :=
         | some ms => if ms > 65000 then "fail:C08:over-60s-budget-cpu-bound-search" else "ok"
         | none => "fail:C08:unparsable"
     { model := impl, oracle := v, tags := s!"real/{fam}/" ++ ((parts.headD "").splitOn " ").headD "" ++ (if (elapsed.getD 0) ≥ 59000 then "/at-budget" else "/early") }
+  | ["server.fd-exhaustion", _, impl] =>
+    -- after a spell of descriptor exhaustion (accept failing) the server serves TCP clients again
+    { model := "tcp-after=answered udp=answered",
+      oracle := if impl == "tcp-after=answered udp=answered" then "ok" else "fail:C09:stopped-serving-tcp-after-accept-errors",
+      tags := "fd" }
+  | ["server.burst", n, impl] =>
+    -- n datagrams sent back to back: exactly one reply each
+    { model := s!"replies={n} dup=0", oracle := if impl == s!"replies={n} dup=0" then "ok" else "fail:C09:reply-lost-or-duplicated-in-a-burst",
+      tags := "burst" }
   | ["server.deep", depth, impl] =>
     -- the release build of the server and a well-formed message with `depth` nested compression pointers
     { model := impl, oracle := if impl.startsWith "replied" then "ok"
